@@ -198,6 +198,11 @@ namespace Sg
 
 def MAGIC : BitVec 32 := 0x80000000#32
 
+/-- `Signal::zero()`, `Signal::one()`, `From<bool>` -/
+def zero : BitVec 32 := 0#32
+def one : BitVec 32 := 1#32
+def fromBool (b : Bool) : BitVec 32 := if b then one else zero
+
 def fromIndex (index : BitVec 32) : BitVec 32 := index <<< 1
 def fromVar (var : BitVec 32) : BitVec 32 := fromIndex (var + 1)
 def fromInput (input : BitVec 32) : BitVec 32 := fromIndex (~~~input)
